@@ -66,6 +66,9 @@ type proxyTrace struct {
 	RetMs    int        `json:"retMs"`
 	Err      string     `json:"err"`
 	DialErr  bool       `json:"dialErr"` // the handler returned because a dial failed
+	// the side that waits for the other's end of stream before it sends (orders upstream_first / client_first)
+	// saw it in time, i.e. while its own direction was still open and silent; "" = this order does not wait
+	WaitedEOF string `json:"waitedEOF"` // "" | "seen" | "timeout"
 }
 
 // upstream u's bytes carry u in the high bit so the client can attribute interleaved bytes
@@ -135,6 +138,8 @@ func runProxy(sc proxyScen, idx int) (*proxyTrace, error) {
 	var ups []*upSrv
 	var dials []string
 	clientSawEOF := make(chan struct{})
+	var waited atomic.Value
+	waited.Store("")
 	for u := 0; u < sc.Peers; u++ {
 		ln, err := net.Listen("tcp", "127.0.0.1:0")
 		if err != nil {
@@ -184,7 +189,9 @@ func runProxy(sc proxyScen, idx int) (*proxyTrace, error) {
 				// reply only after the client's end of stream arrived: the reverse direction must still flow
 				select {
 				case <-s.eofSeen:
+					waited.CompareAndSwap("", "seen")
 				case <-time.After(10 * time.Second):
+					waited.Store("timeout")
 				}
 				s.obs.Sent, _ = writeChunks(c, payload, sc.Chunk)
 			case "upstream_rst":
@@ -268,12 +275,16 @@ func runProxy(sc proxyScen, idx int) (*proxyTrace, error) {
 	}
 	var h *l4proxy.Handler
 	var compiled layer4.Handler
-	if sc.Via == "route" || sc.Via == "route2" {
+	if sc.Via == "route" || sc.Via == "route2" || sc.Via == "throttle" {
 		hj := map[string]any{"handler": "proxy"}
 		for k, v := range hcfg {
 			hj[k] = v
 		}
 		routes := []map[string]any{{"match": []map[string]any{{"verif_m0": map[string]any{"at": 10, "v": "Y", "w": "Y"}}}, "handle": []map[string]any{hj}}}
+		if sc.Via == "throttle" {
+			// the shipped throttle handler without limits in front: the proxy's downstream is a wrapped connection
+			routes = []map[string]any{{"handle": []map[string]any{{"handler": "throttle"}, hj}}}
+		}
 		if sc.Via == "route2" {
 			// two-stage routing: a matched non-terminal route first, then the proxy's route, which needs more bytes
 			routes = append([]map[string]any{{"match": []map[string]any{{"verif_m1": map[string]any{"at": 2, "v": "Y", "w": "Y"}}}, "handle": []map[string]any{{"handler": "verif_h", "k": "pass"}}}}, routes...)
@@ -417,7 +428,9 @@ func runProxy(sc proxyScen, idx int) (*proxyTrace, error) {
 			// send only after the upstreams' end of stream arrived: this direction must still flow
 			select {
 			case <-clientSawEOF:
+				waited.CompareAndSwap("", "seen")
 			case <-time.After(10 * time.Second):
+				waited.Store("timeout")
 			}
 			writeChunksCount(cc, rest, sc.Chunk, &csent)
 			cc.(*net.TCPConn).CloseWrite()
@@ -452,6 +465,7 @@ func runProxy(sc proxyScen, idx int) (*proxyTrace, error) {
 	case <-time.After(5 * time.Second):
 	}
 	tr.Csent = int(csent.Load())
+	tr.WaitedEOF = waited.Load().(string)
 	// every upstream connection must now be closed: the servers' readers end
 	for _, s := range ups {
 		select {
